@@ -298,6 +298,11 @@ impl<'a> GeneratorState<'a> {
             ExprType::AbsoluteX(varname) => self.compiler_state.get_variable(varname),
             _ => unreachable!()
         };
+        #[cfg(feature = "atari2600")]
+        if let VariableMemory::Superchip | VariableMemory::MemoryOnChip(_) = v.memory {
+            // ASL/LSR/ROL/ROR on memory read and write the same address: not possible on split-port RAM
+            return Err(self.compiler_state.syntax_error("16 bits shift not available on cartridge RAM variables. Please use an intermediate variable", pos));
+        }
         if let ExprType::Immediate(value) = right {
             if self.acc_in_use { self.sasm(PHA)?; }
             for _ in 0..*value {
